@@ -132,11 +132,43 @@ Definition fc_all_ok (tbl : list (string * list (string * string * string * bool
   forallb (fun g : string * list fc_entry => existsb (String.eqb (fst g)) (map fst sets)) golden &&
   fc_union_ok sets.
 
-(* ---- config.BoolFuncFlag (the frps flag dashboard_tls_mode) ----
-   Set(s):  f.v = strconv.FormatBool(f.v) == "true";  if !f.v { FalseFunc?() ; return nil };  TrueFunc?()
-   The argument s is never consulted: the new value is the old value.  Returns (new v, TrueFunc ran). *)
-Definition bff_set (v : bool) (s : bytes) : bool * bool :=
-  let v' := if v then true else false in   (* FormatBool(v) == "true" *)
-  (v', v').
-(* a freshly registered flag (v = false) receiving the argument s: does webServer.tls get set? *)
-Definition bff_enables_tls (s : bytes) : bool := snd (bff_set false s).
+(* ---- config.BoolFuncFlag (the frps flag dashboard_tls_mode), repaired code ----
+   Set(s):  v, err := strconv.ParseBool(s); if err != nil { return err }; f.v = v
+            if !f.v { FalseFunc?(); return nil };  TrueFunc?(); return nil *)
+
+(* strconv.ParseBool: exactly these spellings *)
+Definition bff_trues : list bytes := [hx "31"; hx "74"; hx "54"; hx "54525545"; hx "74727565"; hx "54727565"].
+Definition bff_falses : list bytes := [hx "30"; hx "66"; hx "46"; hx "46414c5345"; hx "66616c7365"; hx "46616c7365"].
+Definition bff_parse_bool (s : bytes) : option bool :=
+  if existsb (bytes_eqb s) bff_trues then Some true
+  else if existsb (bytes_eqb s) bff_falses then Some false
+  else None.
+
+(* None = error returned to pflag (the command line is rejected); Some (new v, TrueFunc ran) *)
+Definition bff_set (v : bool) (s : bytes) : option (bool * bool) :=
+  match bff_parse_bool s with
+  | None => None
+  | Some v' => Some (v', v')
+  end.
+
+(* a freshly registered flag receiving the argument s: is webServer.tls set? *)
+Definition bff_enables_tls (s : bytes) : option bool :=
+  match bff_set false s with Some (_, ran) => Some ran | None => None end.
+
+(* RegisterServerConfigFlags: dashboard_tls_cert_file / dashboard_tls_key_file write the local
+   TLSConfig, TrueFunc of dashboard_tls_mode makes webServer.tls point at it.  Result: None = the
+   command line is rejected; Some t = value of webServer.tls *)
+Definition flags_web_tls (mode cert key : bytes) : option (option TLSConfig) :=
+  let local := set_TLSConfig_KeyFile key (set_TLSConfig_CertFile cert zero_TLSConfig) in
+  match bff_enables_tls mode with
+  | None => None
+  | Some true => Some (Some local)
+  | Some false => Some None
+  end.
+
+(* the file form of the same setting: the table webServer.tls with certFile / keyFile, or no table *)
+Definition file_web_tls (t : option (bytes * bytes)) : option TLSConfig :=
+  match t with
+  | Some (cert, key) => Some (set_TLSConfig_KeyFile key (set_TLSConfig_CertFile cert zero_TLSConfig))
+  | None => None
+  end.
